@@ -281,6 +281,13 @@ GATE_METHODS = {"h", "s", "sdg", "x", "y", "z", "cx", "cz", "swap", "id", "cy", 
 
 
 def _is_generator(fnode):
+    r = getattr(fnode, "_sa_is_gen", None)
+    if r is None:
+        r = fnode._sa_is_gen = _is_generator_uncached(fnode)
+    return r
+
+
+def _is_generator_uncached(fnode):
     todo = list(fnode.body)
     while todo:
         n = todo.pop()
@@ -298,6 +305,7 @@ class CE:
         self.steps = 0
         self.max_steps = max_steps
         self.module_cache = {}
+        self.touched = set()        # rel paths of the modules whose code or globals the evaluation consulted
 
     # --- public -------------------------------------------------------------------------
     def call(self, fq, *args, **kwargs):
@@ -315,6 +323,7 @@ class CE:
         stub = getattr(self, "stubs", {}).get(f.fq)
         if stub is not None:
             return stub(*args, **kwargs)
+        self.touched.add(f.module.rel)
         a = f.node.args
         params = [x.arg for x in a.posonlyargs + a.args]
         defaults = [None] * (len(params) - len(a.defaults)) + list(a.defaults)
@@ -757,7 +766,10 @@ class CE:
             raise CERaise("TypeError", str(ex))
 
     def global_name(self, name, f):
+        self.touched.add(f.module.rel)
         r = self.prog.lookup_global(f.module, name)
+        if r is not None and r[0] == "var":
+            self.touched.add(r[1].rel)
         if r is None:
             raise Unsupported(f"unresolved name {name} in {f.fq}")
         if r[0] == "func":
@@ -864,6 +876,7 @@ class CE:
                 return self.call_func(fn.func, [fn.inst.cls] + args, kwargs)
             return self.call_func(fn.func, [fn.inst] + args, kwargs)
         if isinstance(fn, pyfacts.Class):
+            self.touched.add(fn.module.rel)
             inst = Instance(fn)
             init = self.prog.find_method(fn, "__init__")
             if init is not None:
@@ -1203,7 +1216,11 @@ class CE:
 
 
 def _load(t):
+    c = getattr(t, "_sa_load", None)
+    if c is not None:
+        return c
     t2 = ast.parse(ast.unparse(t), mode="eval").body
+    t._sa_load = t2
     for n in ast.walk(t2):
         n.lineno = getattr(t, "lineno", 0)
         n.col_offset = 0
